@@ -66,15 +66,18 @@ structure CallSite where
   callee : BlkSub       -- (entry block, callee)
 deriving Repr, DecidableEq
 
+/-- the internal call made by jump `j` of the pair `bs` (at most one) -/
+def callSite1 (p : Program) (bs : BlkSub) (j : Term Jmp) : List CallSite :=
+  match j.term with
+  | .Call t r =>
+    match calleeOf p t with
+    | some c => [⟨bs, j, t, r, c⟩]
+    | none => []
+  | _ => []
+
 /-- the internal calls of the pair `bs` -/
 def callSites (p : Program) (bs : BlkSub) : List CallSite :=
-  bs.1.term.jmps.flatMap (fun j =>
-    match j.term with
-    | .Call t r =>
-      match calleeOf p t with
-      | some c => [⟨bs, j, t, r, c⟩]
-      | none => []
-    | _ => [])
+  bs.1.term.jmps.flatMap (callSite1 p bs)
 
 def CallSite.sourceNode (c : CallSite) : Node := .CallSource c.src c.callee
 
@@ -83,17 +86,23 @@ def CallSite.callEdges (c : CallSite) : List EdgeRef :=
   [⟨.BlkEnd c.src.1 c.src.2, c.sourceNode, .CallCombine c.jmp⟩,
    ⟨c.sourceNode, .BlkStart c.callee.1 c.callee.2, .Call c.jmp⟩]
 
-/-- the internal calls (anywhere in the program) that target the function with TID `t` and have a
-return site `r` that is a block of the caller: `(call, return-site block)` -/
+/-- the return site of an internal call, if it has one (a block of the caller) -/
+def CallSite.retSite (c : CallSite) : List (CallSite × Term Blk) :=
+  match c.ret with
+  | some r =>
+    match blockOf c.src.2 r with
+    | some rb => [(c, rb)]
+    | none => []
+  | none => []
+
+/-- the internal calls of the pair `bs` that have a return site: `(call, return-site block)` -/
+def retSites (p : Program) (bs : BlkSub) : List (CallSite × Term Blk) :=
+  (callSites p bs).flatMap (·.retSite)
+
+/-- the internal calls (anywhere in the program) with a return site that target the function with
+TID `t` -/
 def returningCallsTo (p : Program) (t : Tid) : List (CallSite × Term Blk) :=
-  (pairs p).flatMap (fun bs => (callSites p bs).flatMap (fun c =>
-    if c.target = t then
-      match c.ret with
-      | some r => match blockOf c.src.2 r with
-        | some rb => [(c, rb)]
-        | none => []
-      | none => []
-    else []))
+  ((pairs p).flatMap (retSites p)).filter (fun cr => decide (cr.1.target = t))
 
 def hasReturn (b : Term Blk) : Bool := b.term.jmps.any isReturn
 
